@@ -301,6 +301,30 @@ func c03GetHead(c *Ctx, validate *Fn) {
 	}
 	signer, verr := c.Result(*vcall, 0), c.Result(*vcall, 1)
 	validated := vcall.X.Args[0]
+	// what is validated is what the publisher sent: nothing is stored into the decoded head before it is validated
+	// (replacing its key, signature, CID or topic makes Validate vouch for something other than the response)
+	{
+		root := strip(validated)
+		pos := token.NoPos
+		instrs(getHead.SSA, func(in ssa.Instruction) {
+			st, ok := in.(*ssa.Store)
+			if !ok || !MayFollow(st, vcall.In) {
+				return // only stores that can execute before the validation
+			}
+			a := c.E(st.Addr)
+			for d := 0; d < 6 && a != nil; d++ {
+				if d > 0 && (Same(a, root) || (root.Cell != nil && a.Cell == root.Cell) || (root.V != nil && a.V == root.V)) {
+					pos = st.Pos()
+					return
+				}
+				if a.Op != "field" && a.Op != "index" && a.Op != "deref" {
+					return
+				}
+				a = a.Args[0]
+			}
+		})
+		c.Check(!pos.IsValid(), "C03.V3-signer-is-expected", getHead.Name+" › validates the response as received", vcall.In.Pos(), "no field of the decoded signed head is stored to before Validate", "a field of the decoded signed head is overwritten (at "+c.pos(pos)+") before it is validated: the signature is no longer checked against what the response carried")
+	}
 	n := 0
 	for _, b := range getHead.SSA.Blocks {
 		ret, ok := b.Instrs[len(b.Instrs)-1].(*ssa.Return)
@@ -353,7 +377,7 @@ func c03GetHead(c *Ctx, validate *Fn) {
 	if n == 0 {
 		c.Unk("C03.V3-signer-is-expected", getHead.Name+" › success return", getHead.SSA.Pos(), "no success return found")
 	}
-	c.Floor("C03.V3-signer-is-expected", 3)
+	c.Floor("C03.V3-signer-is-expected", 4)
 }
 
 // edgeFact gives the fact established by taking the edge p→b when p ends in an If.
